@@ -61,6 +61,12 @@ Decided structurally (clauses that are necessary for the property; the rendered 
             (`_splice_receiver_helpers`); rows filtered through an intermediate comprehension are seen as filtered.
             Refuted: a parent cell that prints a value handed down by the caller instead of task.parent; a depth kept in
             a class attribute counted up/down around the recursion without `finally:` and without a reset in _Repr.repr.
+* round 10 - __get_field_value may answer the computed columns through a dispatch table of constant keys -> lambdas
+            (class attribute / module constant / local; `.get(field)` or `[field]`): each getter is judged like the
+            return of its `if field == ..` branch; the name cell may be built inside __get_field_value(task, field,
+            level) - the name branch there is checked, the indent unit may be a class constant; the sentinel guard is
+            recognised for whatever value EMPTY_TASK_ID currently has; `str + x` counts as str.
+            Not followed (exit 2): _Repr turned into an instance-based renderer (settings and table in self.__x).
 * depth   - indentation multiplied by a value read off the printed task alone (`len(task.all_parents)`, a helper that
             only receives the task) is refuted: the level is relative to the printed tasks and only the recursion knows it.
 
@@ -1053,7 +1059,17 @@ def _name_or_empty(e, task):
     return None
 
 
-def _name_cells(ctx, o, f, P, scope, def_ok, within=None):
+def _class_const(prog, e):
+    """the literal a class-level constant `Cls.NAME` was assigned in the class body, else None"""
+    if isinstance(e, ast.Attribute) and isinstance(e.value, ast.Name) and e.value.id in prog.classes:
+        for st in prog.classes[e.value.id].node.body:
+            tg = st.targets if isinstance(st, ast.Assign) else ([st.target] if isinstance(st, ast.AnnAssign) and st.value is not None else [])
+            if any(isinstance(t_, ast.Name) and t_.id in (e.attr, unmangle(e.attr)) for t_ in tg) and isinstance(st.value, ast.Constant):
+                return st.value
+    return None
+
+
+def _name_cells(ctx, o, f, P, scope, def_ok, within=None, vals_override=None, only_name=False):
     """the name cell is '   ' * level + (name or ''), every other cell __get_field_value(task, field), for the cells that
     function f emits into table P['table'] for task P['task'] (only those inside the statement `within`, if given);
     `scope`: the variables the depth can come from (parameters of f / variables of the walk loop), def_ok(d): the definition
@@ -1062,7 +1078,27 @@ def _name_cells(ctx, o, f, P, scope, def_ok, within=None):
     if True:
         cfg = cfg_of(f)
         ex = Expander(prog, f, ctx.typer)
-        vals, unknown = _cell_values(ctx, f, {P['table']})
+        vals, unknown = (vals_override, []) if vals_override is not None else _cell_values(ctx, f, {P['table']})
+        fvf = prog.func(FIELD_VALUE)
+        if vals_override is None and vals and len(fvf.params) >= 3:
+            # every cell is __get_field_value(task, field, <level>): the name cell is built inside that function
+            exn = Expander(prog, f, ctx.typer, inline=False)
+            inside_ = (lambda n: within is None or any(x is n for st_ in within.body for x in ast.walk(st_)))
+            mine = [v for v in vals if inside_(v[2])]
+            ms = [match(f"_Repr._Repr{fvf.name}($t, $fld, $lvl)", exn.expand(e, at)) for e, at, _ in mine]
+            if mine and all(ms) and all(isinstance(m_['t'], ast.Name) and m_['t'].id == P['task'] and isinstance(m_['lvl'], ast.Name)
+                                        and m_['lvl'].id in scope for m_ in ms) and len({m_['lvl'].id for m_ in ms}) == 1:
+                lname = ms[0]['lvl'].id
+                inner = [(rv, rn, r) for r, rv, rn in _virtual_returns(fvf) if rv is not None]
+                got, absd = _name_cells(ctx, o, fvf, {'task': fvf.params[0], 'table': None, 'fields': None}, list(fvf.params),
+                                        lambda d: d.kind == 'param', vals_override=inner, only_name=True)
+                if got == fvf.params[2] and all(def_ok(d) for d in flow_of(f).reaching(lname, mine[0][1])):
+                    o.site(f, mine[0][2], f"every cell = {fvf.name}({P['task']}, field, {lname}); the name branch is inside it")
+                    return lname, absd
+                if got is not None and got != fvf.params[2]:
+                    o.refute(fvf, fvf.node, 'level parameter', f"the name cell is indented by `{got}`, not by the level `{fvf.params[2]}` handed in")
+                    return lname, True
+                return (lname if got else None), absd
         if within is not None:
             inside = lambda n: n is not None and any(x is n for st_ in within.body for x in ast.walk(st_))
             vals = [v for v in vals if inside(v[2])]
@@ -1108,6 +1144,11 @@ def _name_cells(ctx, o, f, P, scope, def_ok, within=None):
                     a, b = ind[0].left, ind[0].right
                     if const_str(a) is None and const_str(b) is not None:
                         a, b = b, a
+                    if const_str(a) is None and const_str(b) is None:
+                        if _class_const(prog, a) is not None:
+                            a = _class_const(prog, a)
+                        elif _class_const(prog, b) is not None:
+                            a, b = _class_const(prog, b), a
                     unit = const_str(a)
                     if unit is None:
                         o.undecided(f, node, ind[0], "indentation unit is not a string literal")
@@ -1152,7 +1193,7 @@ def _name_cells(ctx, o, f, P, scope, def_ok, within=None):
                         good = False
                     if good:
                         o.site(f, node, f"name cell = {src(xe)}")
-                elif is_name is False:
+                elif is_name is False and not only_name:
                     other_cases += 1
                     g = prog.func(FIELD_VALUE)
                     m = match(f"_Repr._Repr{g.name}($t, $fld)", xe)
@@ -1174,6 +1215,8 @@ def _name_cells(ctx, o, f, P, scope, def_ok, within=None):
                                                    f"the task's {col} (the rows at the top of a sheet) shows an empty / wrong {col}")
                         else:
                             o.undecided(f, node, sub, f"cell text `{src(xe)[:100]}` is not __get_field_value(task, field)")
+        if name_cases == 0 and only_name:
+            return None, abs_depth
         if name_cases == 0:
             if vals and all(match(f"_Repr._Repr{prog.func(FIELD_VALUE).name}($t, $fld)", ex.expand(e, at)) for e, at, _ in vals):
                 o.refute(f, f.node, 'no name branch', "every cell, including the name, is printed by __get_field_value: the name is not indented")
@@ -2552,6 +2595,14 @@ def _links(ctx):
                 "predecessors / successors columns list one linked id per element of t.predecessors / t.successors in order, "
                 "the parent column prints the id of t.parent, all relative to the printed task", floor=5)
 
+    # the value the module constant EMPTY_TASK_ID currently has (the Expander replaces the name by it): whatever it is, the
+    # guard `linked.id == EMPTY_TASK_ID` is the guard against the hidden root
+    sentinel_values = []
+    for mod_ in prog.modules.values() if hasattr(prog, 'modules') else []:
+        for st_ in getattr(mod_, 'tree', ast.Module(body=[], type_ignores=[])).body:
+            if isinstance(st_, ast.Assign) and any(isinstance(t_, ast.Name) and t_.id == 'EMPTY_TASK_ID' for t_ in st_.targets):
+                sentinel_values.append(st_.value)
+
     def atoms_for(tp, lp):
         def is_none_atom(t, pol):
             c = cmp_oriented(t, pol, lambda x: bool(match(lp, x)))
@@ -2561,7 +2612,8 @@ def _links(ctx):
 
         def is_sentinel_atom(t, pol):
             c = cmp_oriented(t, pol, lambda x: bool(match(f"{lp}.id", x)))
-            if c and c[1] in ('==', '!=', 'is', 'isnot') and (match("EMPTY_TASK_ID", c[2]) or match("sys.maxsize", c[2])):
+            if c and c[1] in ('==', '!=', 'is', 'isnot') and (match("EMPTY_TASK_ID", c[2]) or match("sys.maxsize", c[2])
+                                                              or any(same(c[2], v_) for v_ in sentinel_values)):
                 return c[1] in ('==', 'is')
             return None
 
@@ -2781,9 +2833,23 @@ def _links(ctx):
                         keys = [const_str(x) for x in a.comparators[0].elts if const_str(x) in table]
             for key in keys:
                 _link_column(o, h, r, rn, key, table, found, ex, fld, t, one_pat, many_pat, as_one, rvalue)
+        # a dispatch table: `getter = <dict>.get(field)` / `<dict>[field]` ... `return getter(t)`, the dict a literal with
+        # constant keys and lambda values (class attribute, module constant or local)
+        table_rets = _dispatch_table_returns(prog, h, fld)
+        for key, lam, arg, r, rn in table_rets:
+            if key in table and not found[key] and len(lam.args.args) == 1:
+                body = subst(lam.body, {lam.args.args[0].arg: arg})
+                _link_column(o, h, r, rn, key, table, found, ex, fld, t, one_pat, many_pat, as_one, body)
+        dynamic = [n for n in walk_no_nested(h.node) if isinstance(n, ast.Call) and isinstance(n.func, (ast.Name, ast.Subscript))
+                   and not any(n is x[3].value for x in table_rets)
+                   and not (isinstance(n.func, ast.Name) and (n.func.id in ('str', 'isinstance', 'len', 'getattr', 'hasattr', 'repr', 'format', 'vars')
+                                                               or not flow_of(h).defs_of(n.func.id)))]
         for k, ok in found.items():
             if not ok:
-                if any(isinstance(n, ast.Constant) and n.value == k for n in ast.walk(h.node)):
+                if dynamic:
+                    o.undecided(h, dynamic[0], f"no branch for {k}", f"__get_field_value answers some columns through `{src(dynamic[0])[:60]}`, a "
+                                                                     f"callable picked at run time: the rule cannot see what column '{k}' prints")
+                elif any(isinstance(n, ast.Constant) and n.value == k for n in ast.walk(h.node)):
                     o.undecided(h, h.node, f"no branch for {k}", f"__get_field_value mentions '{k}' but not as `if {fld} == '{k}': return ..`: the "
                                                                  f"rule cannot see what that column prints")
                 else:
@@ -2873,6 +2939,54 @@ def _virtual_returns(f):
                 out += [(d.stmt, d.value, d.node) for d in ds]
                 continue
         out.append((r, r.value, rn))
+    return out
+
+
+def _dispatch_table_returns(prog, h, fld):
+    """[(key, lambda, argument, return statement, cfg node)] for `g = D.get(fld)` / `g = D[fld]` ... `return g(arg)` (or the
+    direct `return D[fld](arg)`) in function h, where D is a dict literal with constant keys and lambda values: a local,
+    a module constant or a class attribute (`Cls.__TABLE`)"""
+    cfg, fl = cfg_of(h), flow_of(h)
+
+    def dict_of(e):
+        if isinstance(e, ast.Dict):
+            return e
+        if isinstance(e, ast.Name):
+            ds = [d for d in fl.defs_of(e.id) if d.kind == 'assign']
+            if len(ds) == 1 and isinstance(ds[0].value, ast.Dict):
+                return ds[0].value
+            mod = getattr(h.module, 'tree', None)
+            for st in (mod.body if mod is not None else []):
+                if isinstance(st, ast.Assign) and any(isinstance(t_, ast.Name) and t_.id == e.id for t_ in st.targets) and isinstance(st.value, ast.Dict):
+                    return st.value
+        if isinstance(e, ast.Attribute) and isinstance(e.value, ast.Name) and e.value.id in prog.classes:
+            for st in prog.classes[e.value.id].node.body:
+                tg = st.targets if isinstance(st, ast.Assign) else ([st.target] if isinstance(st, ast.AnnAssign) and st.value is not None else [])
+                if any(isinstance(t_, ast.Name) and t_.id in (e.attr, unmangle(e.attr)) for t_ in tg) and isinstance(st.value, ast.Dict):
+                    return st.value
+        return None
+
+    def lookup(e):
+        """e is D.get(fld[, None]) / D[fld] -> the dict literal"""
+        m = match(f"$d.get({fld})", e) or match(f"$d.get({fld}, None)", e) or match(f"$d[{fld}]", e)
+        return dict_of(m['d']) if m else None
+
+    out = []
+    for r in [n for n in walk_no_nested(h.node) if isinstance(n, ast.Return) and isinstance(n.value, ast.Call) and len(n.value.args) == 1
+              and not n.value.keywords]:
+        fn = r.value.func
+        d = None
+        if isinstance(fn, ast.Name):
+            ds = fl.reaching(fn.id, cfg.node_of(r))
+            if len(ds) == 1 and ds[0].kind == 'assign' and ds[0].value is not None:
+                d = lookup(ds[0].value)
+        else:
+            d = lookup(fn)
+        if d is None:
+            continue
+        for k_, v_ in zip(d.keys, d.values):
+            if isinstance(k_, ast.Constant) and isinstance(k_.value, str) and isinstance(v_, ast.Lambda):
+                out.append((k_.value, v_, r.value.args[0], r, cfg.node_of(r)))
     return out
 
 
@@ -3547,7 +3661,8 @@ def _str_valued(ctx, f, e, at, depth=0):
         return False if (a is False or b is False) else (True if a and b else None)
     if isinstance(e, ast.BinOp) and isinstance(e.op, ast.Add):
         a, b = _str_valued(ctx, f, e.left, at, depth), _str_valued(ctx, f, e.right, at, depth)
-        return True if (a and b) else (None if a is None or b is None else False)
+        # str + x is a str or raises TypeError: it never hands a non-str value on
+        return True if (a is True or b is True) else (None if a is None or b is None else False)
     if isinstance(e, ast.BinOp) and isinstance(e.op, (ast.Mult, ast.Mod)):
         return True if (_str_valued(ctx, f, e.left, at, depth) or _str_valued(ctx, f, e.right, at, depth)) else None
     if isinstance(e, ast.Call):
@@ -3562,6 +3677,9 @@ def _str_valued(ctx, f, e, at, depth=0):
         for ci in ctx.cg.calls_in(f):
             if ci.node is e and ci.resolved and len(ci.targets) == 1:
                 tgt = ci.targets[0]
+        if tgt is None and isinstance(fn, ast.Attribute) and isinstance(fn.value, ast.Name) and fn.value.id in prog.classes:
+            # Cls.helper(..) written outside a function body the call graph knows (a lambda in a class-level table)
+            tgt = prog.find_method(fn.value.id, unmangle(fn.attr)) or prog.find_method(fn.value.id, fn.attr)
         if tgt is not None and depth < 3:
             rets = [n for n in walk_no_nested(tgt.node) if isinstance(n, ast.Return)]
             vals = [_str_valued(ctx, tgt, r.value, cfg_of(tgt).node_of(r), depth + 1) if r.value is not None else False for r in rets]
@@ -3577,6 +3695,12 @@ def _str_valued(ctx, f, e, at, depth=0):
         vals = [_str_valued(ctx, f, v, vat, depth) for v, vat in vs]
         return True if all(v is True for v in vals) else (False if any(v is False for v in vals) else None)
     if isinstance(e, ast.Attribute):
+        if isinstance(e.value, ast.Name) and e.value.id in prog.classes:
+            # a class-level constant (`_Repr.__INDENT_STEP = '   '`)
+            for st in prog.classes[e.value.id].node.body:
+                tg = st.targets if isinstance(st, ast.Assign) else ([st.target] if isinstance(st, ast.AnnAssign) and st.value is not None else [])
+                if any(isinstance(t_, ast.Name) and t_.id in (e.attr, unmangle(e.attr)) for t_ in tg):
+                    return True if const_str(st.value) is not None else None
         return False if depth == 0 else None
     return None
 
@@ -3597,6 +3721,12 @@ def _field_texts(ctx):
             if not cfg.is_reachable(rn):
                 continue
             v = _str_valued(ctx, f, rvalue, rn) if rvalue is not None else False
+            tab = [x for x in _dispatch_table_returns(prog, f, fld) if x[3] is r]
+            if v is None and tab:
+                # `return TABLE[field](t)`: a str when every getter of the table yields one
+                vs_ = [_str_valued(ctx, f, subst(lam.body, {lam.args.args[0].arg: arg}), rn, 0) if len(lam.args.args) == 1 else None
+                       for _k, lam, arg, _r, _n in tab]
+                v = True if all(x is True for x in vs_) else (False if any(x is False for x in vs_) else None)
             xv = exf.expand(rvalue, rn) if rvalue is not None else None
             coloured = [x for x in ast.walk(xv) if (isinstance(x, ast.Call) and isinstance(x.func, ast.Name) and x.func.id in ('colored', 'colored_text'))
                         or (isinstance(x, ast.Constant) and isinstance(x.value, str) and '\x1b' in x.value)] if xv is not None else []
